@@ -143,6 +143,16 @@ def run(case, ctx):
                 if repr(p) not in s:
                     ctx.violate("C05/report:missing-path", f"report does not name failing path {p!r}")
                     break
+    # history: the same rule object tests another document and then this one again
+    other = PC.ZOO_DOC if doc is not PC.ZOO_DOC else PC.ZOO_LIST
+    eo = M.rule_model(rterm, other)
+    ok, ro = call(rule.test, other)
+    if eo is not M.SKIP and ok and (ro.is_valid is not eo["valid"] or [tuple(f.path) for f in ro.failures] != [p for p, _ in eo["failures"]]):
+        ctx.violate(f"C05/history/{pcls}/{ccls}", f"reused rule on another document: valid={ro.is_valid}, model {eo['valid']}; rule={rterm}")
+    ok, rt2 = call(rule.test, doc)
+    ctx.count("entry:retest-after-other-document")
+    if not ok or rt2.is_valid is not exp["valid"] or [(tuple(f.path), canon(f.value)) for f in rt2.failures] != exp_f:
+        ctx.violate(f"C05/history/{pcls}/{ccls}", f"the same rule object judges the same document differently after testing another one; rule={rterm}")
     for name, detail in mon.CONTRACTS.take():
         ctx.violate(f"C05/contract:{name}", detail)
     nf, ns = len(exp["failures"]), exp["selected"]
